@@ -24,7 +24,8 @@ Proof.
   - apply in_or_app. left. exact (assoc_In _ _ _ A).
   - assert (In unknown_language (map snd extension_map ++ map snd shebang_langs ++ [unknown_language])) as U
       by (apply in_or_app; right; apply in_or_app; right; left; reflexivity).
-    destruct (present && cmp_nat shebang_size_cmp (String.length content) shebang_size_bound); [|exact U].
+    destruct ((negb shebang_requires_no_ext || String.eqb (ext_of name) "") && present
+              && cmp_nat shebang_size_cmp (String.length content) shebang_size_bound); [|exact U].
     destruct decodes; [|exact U].
     destruct (shebang_lang (first_line content)) as [l|] eqn:S; [|exact U].
     apply in_or_app. right. apply in_or_app. left. exact (shebang_lang_In _ _ S).
@@ -48,15 +49,26 @@ Theorem detect_unknown name present decodes content :
   detect name present decodes content = unknown_language.
 Proof.
   intros A H. unfold detect. rewrite A.
-  destruct H as [->|[->|P]]; [reflexivity| |].
-  - destruct (present && _); reflexivity.
-  - unfold shebang_lang. rewrite P. destruct (present && _); [destruct decodes|]; reflexivity.
+  destruct H as [->|[->|P]].
+  - rewrite andb_false_r. reflexivity.
+  - destruct (_ && _ && _); reflexivity.
+  - unfold shebang_lang. rewrite P. destruct (_ && _ && _); [destruct decodes|]; reflexivity.
 Qed.
 
 (* an empty file is never read *)
 Theorem detect_empty name present decodes :
   assoc (ext_of name) extension_map = None -> detect name present decodes "" = unknown_language.
 Proof. intros A. unfold detect. rewrite A. rewrite andb_comm. reflexivity. Qed.
+
+(* with the guard `not ext` found in the source, a shebang is consulted for extensionless names only *)
+Theorem detect_unmapped_ext_is_unknown name present decodes content :
+  shebang_requires_no_ext = true ->
+  assoc (ext_of name) extension_map = None -> ext_of name <> "" ->
+  detect name present decodes content = unknown_language.
+Proof.
+  intros G A N. unfold detect. rewrite A, G. cbn [negb orb].
+  destruct (String.eqb_spec (ext_of name) ""); [contradiction|]. reflexivity.
+Qed.
 
 (* ---------- the suffix of  stem ++ ".ext" ---------- *)
 Lemma is_dot_lower c : is_dot (lower_ascii c) = is_dot c.
